@@ -67,15 +67,21 @@ var hdrMuts = []hdrMut{
 		put32(f, 17, 0)
 		return f
 	}},
-	// One less than the real chunk size keeps the chunk count plausible; the
-	// last chunk then decodes to fewer bytes than the offset arithmetic expects.
-	{"chunk-size-minus-one", "bsread-last,bszstd-last", func(rng *rand.Rand, f []byte, _ int64) []byte {
-		put32(f, 17, binary.LittleEndian.Uint32(f[17:])-1)
+	// A chunk size slightly off the real one keeps the chunk count plausible; the
+	// chunk found through the offset arithmetic then decodes to fewer bytes than
+	// the arithmetic expects (smaller: at the end of the blob; larger: just past
+	// a chunk boundary).
+	{"chunk-size-slightly-smaller", "bsread-last", func(rng *rand.Rand, f []byte, _ int64) []byte {
+		put32(f, 17, binary.LittleEndian.Uint32(f[17:])-lib.Pick(rng, []uint32{1, 2, 3}))
+		return f
+	}},
+	{"chunk-size-slightly-larger", "bszstd-chunk+1", func(rng *rand.Rand, f []byte, _ int64) []byte {
+		put32(f, 17, binary.LittleEndian.Uint32(f[17:])+lib.Pick(rng, []uint32{1, 2, 7}))
 		return f
 	}},
 	{"chunk-size-odd", "", func(rng *rand.Rand, f []byte, n int64) []byte {
 		cur := binary.LittleEndian.Uint32(f[17:])
-		put32(f, 17, lib.Pick(rng, []uint32{1, cur / 2, cur * 2, cur - 2, cur + 1, 0xffffffff, uint32(n)}))
+		put32(f, 17, lib.Pick(rng, []uint32{1, cur / 2, cur * 2, 0xffffffff, uint32(n)}))
 		return f
 	}},
 	{"offset-count", "", func(rng *rand.Rand, f []byte, _ int64) []byte {
@@ -213,6 +219,9 @@ func init() {
 						}}
 				}
 				read.class = gen // one key per corrupted field, whatever the read path and offset
+				if strings.HasPrefix(hm.name, "chunk-size-slightly-") {
+					read.class = "disk.header.chunk-size-slightly-off" // one root cause
+				}
 				store := ensureOp(b)
 				store.gen = gen + "/store"
 				return []*op{store, corrupt, read}
